@@ -19,6 +19,10 @@ ASSUMPTIONS = ["std::sort orders by the given comparator", "std::tuple compares 
 
 
 def run(ctx):
+    # locals / parameters the rules below refer to by name (a rename makes the analysis 'broken', never a violation)
+    ctx.anchor(ctx.fn1('Oomd::BaseKillPlugin::resumeTryingToKillSomething'), 'candidate', 'nextBestOptionStack', 'sorted')
+    ctx.anchor(ctx.fn1('Oomd::BaseKillPlugin::tryToKillSomething'), 'sorted', 'nextBestOptionStack')
+    ctx.anchor(ctx.fn1('Oomd::Fs::readKillPreferenceAt'), 'path')
     P = ctx.prog
     # ---- 1. enum order
     e = P.enums.get("Oomd::KillPreference")
